@@ -48,6 +48,11 @@ CHECKS = {
             "whose decoded value equals the original under the dialect's escape rules; any early end of the literal, comment opener or placeholder look-alike "
             "changes the surrounding token stream and is reported. SQLite additionally evaluates the literal text.",
             "Trusted: the dialect lexers (self-tested for round trip and against SQLite at the start of every shard)."),
+    "C04": ("Hypothesis-generated statements of all kinds/classes with unique marker values; token alignment of inline vs parameterised rendering through the reference lexer; SQLite executes both forms",
+            "Every placeholder must have the dialect's style and numbering, consume exactly one literal group of the inline rendering that decodes to the listed value, "
+            "all other tokens must be identical, listed values must be plain data, non-exempt marker values must be listed and gone from the SQL, exempt ones inline; "
+            "SQLite-class statements are executed in both forms on a small database and must agree.",
+            "Trusted: reference lexers and the value decoder shared with C05; the structured statement generator pbt/gen.py."),
 }
 
 NOT_BUILT = {}
